@@ -4,7 +4,7 @@ import json
 import os
 
 from .cfg import is_int, walk
-from .facts import VERIF
+from .facts import VERIF, AnalysisBroken
 
 # files a property's mechanism continues into beyond its listed anchors
 EXTRA_FILES = {
@@ -133,15 +133,20 @@ def scope_keys(prog, pid):
             if prog._callees is None:
                 prog._build_graph()
             st = list(own)
+            seen = set(own)
             while st:
                 k = st.pop()
                 for c in prog._callees.get(k, ()):
                     g = prog.funcs.get(c)
-                    if g is None or c in reach or c in own:
+                    if g is None or c in seen:
                         continue
-                    if g.file in util and prog.is_production(g):
-                        reach.add(c)
+                    seen.add(c)
+                    # the walk goes through whatever the property's code calls; what is added to the scope are the
+                    # general-purpose functions met on the way
+                    if prog.is_production(g):
                         st.append(c)
+                        if g.file in util:
+                            reach.add(c)
         _scope_cache.clear()            # one program at a time is alive
         _scope_cache[key] = (own, reach)
     own, reach = _scope_cache[key]
@@ -1147,6 +1152,34 @@ def list_walks(ck, prog):
             if not isinstance(top, dict):
                 continue
             for x in walk(top):
+                if x.get('k') == 'cond' and x['c'].get('k') == 'bin' and x['c'].get('op') == '==':
+                    # _dbus_list_get_prev_link: (link == *list) ? NULL : link->prev
+                    for a, b2 in ((x['c']['l'], x['c']['r']), (x['c']['r'], x['c']['l'])):
+                        stepped = x['b']
+                        while isinstance(stepped, dict) and stepped.get('k') in ('paren', 'cast'):
+                            stepped = stepped['e']
+                        if is_ref(a) and a.get('id') in heads and head_in_step(b2) is not None and \
+                                is_member(stepped, None, 'DBusList') and stepped['field'] in ('next', 'prev') and \
+                                is_ref(stepped['base']) and stepped['base'].get('id') == a.get('id'):
+                            h = head_in_step(b2)
+                            key = '%s:%s back over %s' % (f.name, a['name'], h)
+                            if key in seen:
+                                continue
+                            seen.add(key)
+                            n += 1
+                            want = {'first': 'next', 'last': 'prev'}
+                            dirs = {want[e2] for e2 in ends.get(a['id'], ())}
+                            if h in heads[a['id']] and stepped['field'] not in dirs and len(dirs) == 1:
+                                r.violation(key + ':direction', f.name, f.file, line,
+                                            '%s starts at the %s link of %s but steps to ->%s: the walk sees one element '
+                                            'only' % (f.name, '/'.join(sorted(ends[a['id']])), h, stepped['field']))
+                            elif h in heads[a['id']]:
+                                r.ok(key)
+                            else:
+                                r.violation(key, f.name, f.file, line,
+                                            '%s walks the list %s with the link %s but steps it against the head of %s' % (
+                                                f.name, ' / '.join(sorted(heads[a['id']])), a['name'], h))
+                    continue
                 if x.get('k') != 'bin' or x.get('op') != '==':
                     continue
                 for a, b2 in ((x['l'], x['r']), (x['r'], x['l'])):
@@ -1633,6 +1666,94 @@ def accessors(ck, prog):
 
 
 # ---------------------------------------------------------------------------
+# a list link that was given away is not read again
+
+LINK_SINKS = {'_dbus_list_remove_link': 1, '_dbus_list_free_link': 0, 'free_link': 0}
+
+
+def stale_links(ck, prog):
+    from .cfg import Explorer, estr, is_ref, is_member, walk as cwalk, written_lvalues, event_expr
+    pid = ck.pid
+    r = ck.rule(pid + '.X', 'a list link that was removed, freed, or handed to a callback that may remove it (an indirect '
+                'call given the link itself) is not read again before the variable is given a new link: walks that '
+                'remove while walking fetch the next link first (path-sensitive, per function in this property\'s scope)',
+                'TS', breaks='the walk continues from a link that is no longer in the list: it ends after the first '
+                'removal (the remaining pending replies of a disconnected callee are never expired) or reads freed '
+                'memory', floor=0)
+    n = 0
+    for f in prog.funcs.values():
+        if not in_scope(prog, ck.pid, f):
+            continue
+        sinks = {}
+        for b, i, c in f.calls():
+            idx = LINK_SINKS.get(c.get('callee'))
+            if idx is not None and len(c['args']) > idx and is_ref(c['args'][idx]) and c['args'][idx].get('kind') == 'local':
+                sinks[c['id']] = c['args'][idx]['id']
+            elif c.get('callee') is None:
+                for a in c['args']:
+                    if is_ref(a) and a.get('kind') == 'local' and 'DBusList *' in (a.get('t') or ''):
+                        sinks[c['id']] = a['id']
+        if not sinks:
+            continue
+        n += 1
+        names = {}
+
+        def on_event(user, ev, ctx, sinks=sinks, names=names):
+            gone = user
+            e = event_expr(ev)
+            # reads of a stale link
+            if gone:
+                tops = []
+                if ev['ev'] == 'assign':
+                    tops = [ev['e'].get('r')]
+                    if ev['e']['l'].get('k') != 'ref':
+                        tops.append(ev['e']['l'])
+                elif ev['ev'] == 'decl':
+                    tops = [ev.get('init')]
+                elif ev['ev'] == 'call':
+                    tops = list(ev['e']['args'])
+                elif ev['ev'] in ('return', 'deref', 'sub', 'incdec'):
+                    tops = [ev.get('e')]
+                for top in tops:
+                    if not isinstance(top, dict):
+                        continue
+                    for x in cwalk(top):
+                        if x.get('k') == 'member' and is_ref(x.get('base')) and x['base'].get('id') in gone \
+                                and x.get('rec') == 'DBusList':
+                            ctx.report('%s is read after the link %s was given away' % (estr(x), x['base']['name']),
+                                       ev['line'], key=(x['base']['name'], ev['line']))
+            if ev['ev'] == 'call' and ev['e'].get('id') in sinks:
+                gone = frozenset(gone | {sinks[ev['e']['id']]})
+            for lhs, how, rhs in written_lvalues(ev):
+                if (is_ref(lhs) or 'k' not in lhs) and lhs.get('id') in gone and how in ('=', 'decl'):
+                    gone = frozenset(gone - {lhs['id']})
+            return gone
+
+        def on_edge(user, bid, idx, atom, sense, ctx):
+            # a branch condition that reads the stale link
+            t = f.blocks[bid].get('term')
+            if user and t and isinstance(t.get('cond'), dict):
+                for x in cwalk(t['cond']):
+                    if x.get('k') == 'member' and is_ref(x.get('base')) and x['base'].get('id') in user \
+                            and x.get('rec') == 'DBusList':
+                        ctx.report('%s is read after the link %s was given away' % (estr(x), x['base']['name']),
+                                   t.get('line'), key=(x['base']['name'], t.get('line')))
+            return user
+        try:
+            ex = Explorer(f, init=frozenset(), on_event=on_event, on_edge=on_edge, track=None, cap=120000).run()
+        except AnalysisBroken:
+            r.note('%s: too many paths; no verdict' % f.name)
+            continue
+        key = '%s:links-not-read-after-removal' % f.name
+        if ex.reports:
+            r.from_reports(ex.reports, keyfn=lambda k, rep, f=f: '%s:%s-stale' % (f.name, k[0]))
+        else:
+            r.ok(key)
+    if n == 0:
+        r.ok('no-link-is-given-away-in-scope')
+
+
+# ---------------------------------------------------------------------------
 # which function a function calls
 
 def callee_profile(f):
@@ -1734,6 +1855,7 @@ def run(ck, prog):
     condition_functions(ck, prog)
     never_set_values(ck, prog)
     callee_identity(ck, prog)
+    stale_links(ck, prog)
     accessors(ck, prog)
     fresh_reads(ck, prog)
     cursor_loops(ck, prog)
